@@ -251,6 +251,17 @@ fn tampered(rep: &Report) {
                 jwts.push((what, format!("{h}.{}.{s}", b64_json(&q))));
             }
         }
+        // each segment respelled: padded, standard alphabet, percent-encoded, surrounded by blanks
+        for (si, seg) in [&h, &p, &s].iter().enumerate() {
+            for (mode, t) in [("pad1", format!("{seg}=")), ("pad2", format!("{seg}==")), ("std_alphabet", seg.replace('-', "+").replace('_', "/")), ("percent", seg.replace('-', "%2D").replace('_', "%5F")), ("trailing_blank", format!("{seg} ")), ("leading_blank", format!(" {seg}")), ("trailing_newline", format!("{seg}\n"))] {
+                let mut segs = [h.to_string(), p.to_string(), s.to_string()];
+                if segs[si] == t {
+                    continue;
+                }
+                segs[si] = t;
+                jwts.push((format!("segment{si}:{mode}"), segs.join(".")));
+            }
+        }
         jwts.push(("sig_removed".into(), format!("{h}.{p}")));
         jwts.push(("sig_empty".into(), format!("{h}.{p}.")));
         jwts.push(("four_parts".into(), format!("{h}.{p}.{s}.x")));
